@@ -107,6 +107,7 @@ func (e *Engine) VerifyFunc(fn *ssa.Function, con *Contract) (res *FuncResult) {
 	for k, v := range st.heap {
 		st.oldHeap[k] = v
 	}
+	st.written = map[string]bool{}
 	x.work = []*State{st}
 	x.runAll()
 	return res
@@ -114,26 +115,77 @@ func (e *Engine) VerifyFunc(fn *ssa.Function, con *Contract) (res *FuncResult) {
 
 // ---- discharge ----------------------------------------------------------------------
 
-func instances(t *Term, sk []*Term) []*Term {
+// containsSym reports whether t mentions the symbol name.
+func containsSym(t *Term, name string) bool {
+	if t.Op == "sym" {
+		return t.Name == name
+	}
+	for _, a := range t.Args {
+		if containsSym(a, name) {
+			return true
+		}
+	}
+	return false
+}
+
+// patternOffsets finds, in the body of a quantifier over k, the select index patterns k and
+// A + k; it returns the list of offsets A (0 for the bare pattern).
+func patternOffsets(t *Term, k string, out map[string]*Term) {
+	if t.Op == "select" {
+		idx := t.Args[1]
+		switch {
+		case idx.Op == "sym" && idx.Name == k:
+			out["0"] = IntLit(0)
+		case idx.Op == "+" && len(idx.Args) == 2:
+			a, b := idx.Args[0], idx.Args[1]
+			if b.Op == "sym" && b.Name == k && !containsSym(a, k) {
+				out[a.String()] = a
+			} else if a.Op == "sym" && a.Name == k && !containsSym(b, k) {
+				out[b.String()] = b
+			}
+		}
+	}
+	for _, a := range t.Args {
+		patternOffsets(a, k, out)
+	}
+}
+
+// instances instantiates the universally quantified parts of an assumption: at the given
+// terms directly, and at I - A for every goal index term I and pattern offset A (so that
+// an assumed fact about row[A+k] is available at the index the goal reads).
+func instances(t *Term, direct []*Term, goalIdx []*Term) []*Term {
 	switch t.Op {
 	case "forall":
 		if len(t.Bound) != 1 {
 			return nil
 		}
+		k := t.Bound[0].Name
+		cands := map[string]*Term{}
+		for _, s := range direct {
+			cands[s.String()] = s
+		}
+		offs := map[string]*Term{}
+		patternOffsets(t.Args[0], k, offs)
+		for _, a := range offs {
+			for _, i := range goalIdx {
+				c := Sub(i, a)
+				cands[c.String()] = c
+			}
+		}
 		var out []*Term
-		for _, s := range sk {
-			out = append(out, Subst(t.Args[0], map[string]*Term{t.Bound[0].Name: s}))
+		for _, key := range sortedKeys(cands) {
+			out = append(out, Subst(t.Args[0], map[string]*Term{k: cands[key]}))
 		}
 		return out
 	case "and":
 		var out []*Term
 		for _, a := range t.Args {
-			out = append(out, instances(a, sk)...)
+			out = append(out, instances(a, direct, goalIdx)...)
 		}
 		return out
 	case "=>":
 		var out []*Term
-		for _, i := range instances(t.Args[1], sk) {
+		for _, i := range instances(t.Args[1], direct, goalIdx) {
 			out = append(out, Implies(t.Args[0], i))
 		}
 		return out
@@ -169,17 +221,14 @@ func (o *Obligation) BuildQuery(inputs []*Term, qf bool) string {
 		}
 	}
 	if len(quant) > 0 {
-		extra := map[string]*Term{}
-		for _, s := range o.Skolems {
-			extra[s.String()] = s
-		}
-		indexTerms(o.Goal, extra, 0)
-		var inst []*Term
-		for _, k := range sortedKeys(extra) {
-			inst = append(inst, extra[k])
+		idx := map[string]*Term{}
+		indexTerms(o.Goal, idx, 0)
+		var goalIdx []*Term
+		for _, k := range sortedKeys(idx) {
+			goalIdx = append(goalIdx, idx[k])
 		}
 		for _, a := range quant {
-			for _, i := range instances(a, inst) {
+			for _, i := range instances(a, o.Skolems, goalIdx) {
 				if !hasQuant(i) || !qf {
 					as = append(as, i)
 				}
